@@ -124,6 +124,12 @@ type Cluster struct {
 	DialHook func(addr string)
 	// ConnHook is installed on the client end of every new connection.
 	ConnHook Hook
+	// ActionHook, if set, is asked before every get / mutation (single or inside a multi) is executed; it returns a
+	// Java exception class to answer with, "" to execute, or "DROP" to cut the connection without answering.
+	// It is called with the cluster lock held and must not call back into the cluster.
+	ActionHook func(rs *RS, r *Region, op string, row []byte) string
+	// MetaMode: "" normal, "silent" (meta scans are never answered), "empty" (meta knows no region)
+	MetaMode string
 	Execs    []Exec
 }
 
@@ -529,6 +535,11 @@ func (c *Cluster) serve(rs *RS, sc *ServerConn, req *Request, name []byte) {
 		}
 		res, exc := c.doGetLocked(rs, r, p.GetGet())
 		c.mu.Unlock()
+		if exc == "DROP" {
+			c.Trace.Emit("drop", "conn", sc.ID, "id", int(req.CallID))
+			sc.C.Break()
+			return
+		}
 		if exc != "" {
 			c.sendExc(sc, req, exc)
 			return
@@ -548,6 +559,11 @@ func (c *Cluster) serve(rs *RS, sc *ServerConn, req *Request, name []byte) {
 		kvs, _ := DecodeKVs(req.CellBlock)
 		res, processed, exc, _ := c.doMutateLocked(rs, r, p.GetMutation(), p.GetCondition(), kvs)
 		c.mu.Unlock()
+		if exc == "DROP" {
+			c.Trace.Emit("drop", "conn", sc.ID, "id", int(req.CallID))
+			sc.C.Break()
+			return
+		}
 		if exc != "" {
 			c.sendExc(sc, req, exc)
 			return
@@ -595,6 +611,11 @@ func (c *Cluster) doGetLocked(rs *RS, r *Region, g *pb.Get) ([]KV, string) {
 	}
 	if !r.Contains(g.GetRow()) {
 		return nil, ExcWrongRegion
+	}
+	if c.ActionHook != nil {
+		if e := c.ActionHook(rs, r, "get", g.GetRow()); e != "" {
+			return nil, e
+		}
 	}
 	c.exec("get", rs, r, g.GetRow())
 	t := c.Tables[r.Table]
@@ -655,6 +676,11 @@ func (c *Cluster) doMutateLocked(rs *RS, r *Region, m *pb.MutationProto, cond *p
 	t := c.Tables[r.Table]
 	if t == nil {
 		return nil, false, ExcNotServing, n
+	}
+	if c.ActionHook != nil {
+		if e := c.ActionHook(rs, r, "mutate", m.GetRow()); e != "" {
+			return nil, false, e, n
+		}
 	}
 	key := string(m.GetRow())
 	row := t.Rows[key]
@@ -785,13 +811,14 @@ func (c *Cluster) serveMulti(rs *RS, sc *ServerConn, req *Request, p *pb.MultiRe
 	kvs, _ := DecodeKVs(req.CellBlock)
 	resp := &pb.MultiResponse{}
 	var cb []byte
-	var summary []map[string]any
+	summary := []map[string]any{}
+	drop := false
 	c.mu.Lock()
 	for _, ra := range p.GetRegionAction() {
 		name := ra.GetRegion().GetValue()
 		rar := &pb.RegionActionResult{}
 		r, prob := c.regionProblemLocked(rs, name)
-		var rows []string
+		rows := []string{}
 		for _, a := range ra.GetAction() {
 			if a.Get != nil {
 				rows = append(rows, "get:"+string(a.Get.GetRow()))
@@ -818,6 +845,9 @@ func (c *Cluster) serveMulti(rs *RS, sc *ServerConn, req *Request, p *pb.MultiRe
 			roe := &pb.ResultOrException{Index: proto.Uint32(a.GetIndex())}
 			if a.Get != nil {
 				res, exc := c.doGetLocked(rs, r, a.Get)
+				if exc == "DROP" {
+					drop = true
+				}
 				if exc != "" {
 					roe.Exception = &pb.NameBytesPair{Name: proto.String(exc), Value: []byte("simulated " + exc)}
 				} else {
@@ -826,6 +856,9 @@ func (c *Cluster) serveMulti(rs *RS, sc *ServerConn, req *Request, p *pb.MultiRe
 			} else if a.Mutation != nil {
 				res, _, exc, n := c.doMutateLocked(rs, r, a.Mutation, nil, kvs)
 				kvs = kvs[n:]
+				if exc == "DROP" {
+					drop = true
+				}
 				if exc != "" {
 					roe.Exception = &pb.NameBytesPair{Name: proto.String(exc), Value: []byte("simulated " + exc)}
 				} else {
@@ -838,6 +871,11 @@ func (c *Cluster) serveMulti(rs *RS, sc *ServerConn, req *Request, p *pb.MultiRe
 	}
 	c.mu.Unlock()
 	c.Trace.Emit("multi", "conn", sc.ID, "id", int(req.CallID), "addr", rs.Addr, "regions", summary)
+	if drop {
+		c.Trace.Emit("drop", "conn", sc.ID, "id", int(req.CallID))
+		sc.C.Break()
+		return
+	}
 	c.Trace.Emit("resp", "conn", sc.ID, "id", int(req.CallID), "exc", "")
 	sc.Send(Response{CallID: req.CallID, Msg: resp, CellBlock: cb})
 }
